@@ -30,6 +30,7 @@ type fileCase struct {
 	file   []byte        // intended file content
 	ends   []int         // b_i: end offset of document i in file
 	empty  []bool        // document i is the empty object {} (skipped by the readers: known finding)
+	big    bool          // a file of several KB (block-boundary effects)
 	name   string
 }
 
@@ -116,11 +117,44 @@ func genFileCase(c *Ctx) (*fileCase, *Violation) {
 	if !fc.json {
 		mxj.XMLEscapeChars(true)
 	}
+	// now and then a file of several KB whose text is dense in multi-byte characters: document
+	// and character boundaries then fall on every offset, including multiples of 512 and 4096
+	bigEvery := 200
+	if c.Tier == "thorough" {
+		bigEvery = 40
+	}
+	fc.big = t.Draw(bigEvery) == bigEvery-1
+	if fc.big {
+		n = 1 + t.Draw(3)
+		c.C["probe.big_files"]++
+	}
+	bigText := func() string {
+		var b strings.Builder
+		target := 1500 + t.Draw(6000)
+		sub := uint64(t.Draw(1 << 30))
+		for i := 0; b.Len() < target; i++ {
+			sub = splitmix(sub)
+			b.WriteString([]string{"é", "☃", "a", "é☃", "ü", "€", "b c", "𝄞"}[sub%8])
+		}
+		return b.String()
+	}
 	for i := 0; i < n; i++ {
 		var m mxj.Map
 		var err error
 		var doc string
-		if fc.json {
+		if fc.big {
+			if fc.json {
+				doc = `{"t":` + jsonQuote(bigText()) + `,"u":[` + jsonQuote(bigText()) + `,1],"k":{"a":"}{"}}`
+				if v := safely(c, "gen-decode", func() { m, err = mxj.NewMapJson([]byte(doc)) }); v != nil {
+					return nil, nil
+				}
+			} else {
+				doc = "<big><t>" + bigText() + "</t><u k=\"v\">" + bigText() + "</u><e/></big>"
+				if v := safely(c, "gen-decode", func() { m, err = mxj.NewMapXml([]byte(doc)) }); v != nil {
+					return nil, nil
+				}
+			}
+		} else if fc.json {
 			doc = genJSONDoc(t, JSONOpts{WS: t.Draw(3) == 2, EmptyTop: true})
 			if v := safely(c, "gen-decode", func() { m, err = mxj.NewMapJson([]byte(doc)) }); v != nil {
 				return nil, nil
@@ -266,7 +300,7 @@ func runC19(c *Ctx) *Violation {
 		// the path already holds an older, longer file: the writers must truncate it
 		old := append(append([]byte(nil), fc.file...), fc.file...)
 		old = append(old, " <stale>left over</stale> {\"stale\":true}"...)
-		d.Files[fc.name] = old
+		d.Set(fc.name, old)
 		c.C["probe.preexisting_longer_file"]++
 		c.Put("preexisting_file_bytes", len(old))
 	}
@@ -277,8 +311,8 @@ func runC19(c *Ctx) *Violation {
 	if werr != nil {
 		return &Violation{"C19.f1-write-error/" + fc.tag(), fmt.Sprintf("file writer returned %v", werr)}
 	}
-	if !bytes.Equal(d.Files[fc.name], fc.file) {
-		return &Violation{"C19.f1-file-content/" + fc.tag(), fmt.Sprintf("file content is not the concatenation of the per-Map encodings:\n file: %q\n want: %q", clip(string(d.Files[fc.name]), 300), clip(string(fc.file), 300))}
+	if onDisk, _ := d.Get(fc.name); !bytes.Equal(onDisk, fc.file) {
+		return &Violation{"C19.f1-file-content/" + fc.tag(), fmt.Sprintf("file content is not the concatenation of the per-Map encodings:\n file: %q\n want: %q", clip(string(onDisk), 300), clip(string(fc.file), 300))}
 	}
 	sch := DrawReadSched(t, L, false)
 	sch.ByteReader = false
@@ -320,20 +354,37 @@ func runC19(c *Ctx) *Violation {
 			}
 			c.C["probe.f2_files_fully_enumerated"]++
 		} else {
-			for i := 0; i < 64; i++ {
+			for i := 0; i < 48; i++ {
 				pts = append(pts, t.Draw(L+1))
 			}
+			// block boundaries and document boundaries, one byte either side
+			for b := 512; b <= L; b += 512 {
+				if b%4096 == 0 || t.Draw(4) == 0 {
+					pts = append(pts, b-1, b)
+					if b+1 <= L {
+						pts = append(pts, b+1)
+					}
+				}
+			}
+			for _, e := range fc.ends {
+				pts = append(pts, e-1, e)
+				if e+1 <= L {
+					pts = append(pts, e+1)
+				}
+			}
 		}
-		reports := fmode == 1
+		reports := fmode == 1 && !d.Real() // a write error cannot be injected into a real *os.File
 		for _, tear := range pts {
 			c.Eval()
 			d.TearAt, d.TearReports = tear, reports
 			if _, v := fc.write(c); v != nil {
 				return v
 			}
+			onDisk, _ := d.Get(fc.name) // (real-file mode: this is where the crash cuts the file)
 			d.TearAt = -1
-			if !bytes.Equal(d.Files[fc.name], fc.file[:tear]) {
-				return &Violation{"C19.f2-harness", "torn write did not leave the prefix"} // cannot happen
+			if !bytes.Equal(onDisk, fc.file[:tear]) {
+				// the writer did not write the intended content (F1 found it intact just before): report it
+				return &Violation{"C19.f2-file-content/" + fc.tag(), fmt.Sprintf("rewriting the same Maps left %q, not a prefix of the intended content", clip(string(onDisk), 200))}
 			}
 			got, raws, _, rerr, v := fc.read(c)
 			if v != nil {
@@ -378,7 +429,7 @@ func runC19(c *Ctx) *Violation {
 		}
 		cor := append([]byte(nil), fc.file...)
 		cor[off] = nb
-		d.Files[fc.name] = cor
+		d.Set(fc.name, cor)
 		c.C["fault.stored_byte_flipped"]++
 		c.Put("flipped", fmt.Sprintf("offset %d: %q -> %q", off, fc.file[off], nb))
 		got, raws, _, rerr, v := fc.read(c)
@@ -392,6 +443,10 @@ func runC19(c *Ctx) *Violation {
 			return v
 		}
 	case 3: // F3: EIO while reading
+		if d.Real() {
+			c.C["probe.skipped_in_real_disk_mode"]++
+			return nil
+		}
 		c.Eval()
 		off := t.Draw(L + 1)
 		d.ReadSched[fc.name] = &ReadSched{ErrAt: off, CutAt: -1, Chunk: t.Draw(3), ChunkSeed: 7}
@@ -428,7 +483,7 @@ func runC19(c *Ctx) *Violation {
 		case 2:
 			d.NonRegular[fc.name] = true
 		case 3:
-			delete(d.Files, fc.name)
+			d.Del(fc.name)
 		}
 		c.Put("open_fault", []string{"stat error", "open error", "non-regular file", "file missing"}[which])
 		got, _, isNil, rerr, v := fc.read(c)
